@@ -34,6 +34,16 @@ FrameEv(e) ==
             /\ Report("canvas", [frame |-> fno, plainOk |-> okN, flashedOk |-> okF,
                                  firstdiff |-> IF ~okN /\ ~okF THEN FirstDiff(e.canvas, scr, FALSE) ELSE -2])
 
+\* a frame observed at a sample of pixels only (every frame of the long watch): same judgement on the sample
+FFrameEv(e) ==
+    \E okN \in {\A i \in DOMAIN e.samples : e.samples[i][3] = Pixel(scr, e.samples[i][1], e.samples[i][2], FALSE)} :
+    \E okF \in {\A i \in DOMAIN e.samples : e.samples[i][3] = Pixel(scr, e.samples[i][1], e.samples[i][2], TRUE)} :
+    LET keep == {p \in phases : IF FlashAt(p, fno) THEN okF ELSE okN} IN
+    /\ fno' = fno + 1
+    /\ IF keep # {} THEN phases' = keep /\ bad' = bad
+       ELSE /\ phases' = 0..31
+            /\ Report("canvas", [frame |-> fno, plainOk |-> okN, flashedOk |-> okF, firstdiff |-> -3])
+
 \* beam time at which the ULA uses the bytes of character column c of picture line y
 BeamT(y, c) == T0(m) + 1 + y * Line(m) + c * 4
 \* a frame in which offset e.off changed from e.old to e.new at in-frame time e.tw: every pixel that the
@@ -74,6 +84,7 @@ Step(e) ==
       \* frames that passed without being logged still advance the flash counter
       [] e.ev = "skip" -> fno' = fno + e.n /\ UNCHANGED <<m, scr, phases, path, bad>>
       [] e.ev = "frame" -> FrameEv(e) /\ UNCHANGED <<m, scr, path>>
+      [] e.ev = "fframe" -> FFrameEv(e) /\ UNCHANGED <<m, scr, path>>
       [] e.ev = "wframe" -> WFrame(e) /\ UNCHANGED <<m, path>>
 
 TraceNext == l <= Len(Rec) /\ Step(Rec[l]) /\ l' = l + 1
